@@ -22,6 +22,7 @@ MANIFEST = {
 }
 
 SIGS = [10, 12, 1, 28]
+PIPE_CAP = 4096          # 64 KiB self-pipe / 16-byte messages (the harness checks the pipe size)
 K_L10 = "stale-signal-msg-after-restart-same-signum"
 K_B = "stale-signal-msg-stops-restarted-oneshot"
 K_C = "oneshot-restarted-in-own-callback-stopped"
@@ -83,6 +84,43 @@ def gen_case(rng, big=False, bias=None):
     for L in range(nl):
         lines.append(f"run {L}")
     return lines
+
+
+def gen_burst_case(rng):
+    """large bursts: hundreds to thousands of deliveries pending between two dispatches, one or several
+    watchers / signums / loops, up to, exactly at and across the pipe capacity; then stop/close with the
+    messages still in the pipe"""
+    nl = rng.range(1, 2)
+    nh = rng.range(1, 4)
+    lo = [rng.below(nl) for _ in range(nh)]
+    lines = ["init %d %s" % (nl, " ".join(map(str, lo)))]
+    sigs = SIGS[:rng.range(1, 2)]
+    for h in range(nh):
+        lines.append(f"{'oneshot' if rng.chance(1, 5) else 'start'} h{h} {rng.choice(sigs)}")
+    for rnd in range(rng.range(1, 2)):
+        for sig in sigs:
+            per = max(1, sum(1 for l in lines[1:1 + nh] if l.endswith(f" {sig}")))
+            n = rng.choice([33, 64, 300, 1000, 1024, 1025, 1500, 2048, 3000, 4000, 4095, 4096, 4097, 5000])
+            lines.append(f"burst {sig} {max(1, n // (per if rng.chance(1, 2) else 1))}")
+        r = rng.below(6)
+        h = rng.below(nh)
+        if r == 0: lines.append(f"stop h{h}")
+        elif r == 1: lines.append(f"close h{h}")
+        elif r == 2: lines += [f"stop h{h}", f"start h{h} {rng.choice(sigs)}"]
+        elif r == 3: lines.append(f"unref h{h}")
+        for L in range(nl): lines.append(f"run {L}")
+    for h in range(nh): lines.append(f"close h{h}")
+    for L in range(nl): lines += [f"run {L}", f"run {L}"]
+    return lines
+
+
+BURST_WITNESSES = [
+    ["init 1 0", "start h0 10", "burst 10 1500", "run 0", "burst 10 40", "run 0", "close h0", "run 0"],
+    ["init 1 0", "start h0 10", "burst 10 4200", "run 0", "burst 10 100", "close h0", "run 0", "run 0"],      # across the capacity
+    ["init 2 0 0 1", "start h0 10", "start h1 10", "start h2 12", "burst 10 1100", "burst 12 1300", "stop h1", "run 0", "run 1",
+     "close h0", "close h1", "close h2", "run 0", "run 1"],
+    ["init 1 0 0", "start h0 10", "oneshot h1 10", "burst 10 4500", "close h0", "run 0", "run 0", "close h1", "run 0"],  # overflow, then close
+]
 
 
 def gen_mt_case(rng):
@@ -157,7 +195,8 @@ class Mon:
     def run(self, prog, out, mt=False):
         it = iter(out)
         H = {}
-        exp = {}             # loop -> list of groups; group = list of dict(h, sig, inc, done)
+        exp = {}             # loop -> FIFO of dict(h, sig, inc, done): messages written since the pipe was last drained
+        pos = {}             # loop -> index of the first entry not yet known to be read
         scripts = {}
         ncb = 0
         reset_fired = {}
@@ -186,7 +225,7 @@ class Mon:
             w = watchers(sig)
             if not w or (not os and all(H[j]["os"] for j in w)): reset_fired[sig] = False
             x["sig"] = sig; x["os"] = os; x["inc"] += 1
-            x["pending_at_restart"] = any(e["h"] == h and not e["done"] for e in exp[x["loop"]])
+            x["pending_at_restart"] = any(e["h"] == h and not e["done"] for e in exp[x["loop"]][pos.get(x["loop"], 0):])
             x["own_cb_restart"] = False
             return 0
         def spec_op(w, in_cb_of=None, was_os=False):
@@ -212,11 +251,15 @@ class Mon:
                     self.v("disposition", f"signal {sig} has default disposition though {watchers(sig)} watch it")
                 return
             if line != "raised": self.v("protocol", f"unexpected `{line}`"); return
+            deliver(sig)
+        def deliver(sig):
             w = watchers(sig)
             if w and all(H[h]["os"] for h in w): reset_fired[sig] = True
             # one message per watcher into its loop's pipe; within one delivery the handler walks the
             # watchers regular-first, then by address (= id): that is the order they are read back in
             for h in sorted(w, key=lambda j: (H[j]["os"], j)):
+                if len(exp[H[h]["loop"]]) >= PIPE_CAP:
+                    continue     # pipe full: outside the property's envelope the message is lost, uncounted
                 exp[H[h]["loop"]].append(dict(h=h, sig=sig, inc=H[h]["inc"], done=False))
                 H[h]["caught"] += 1
         def check_obs(after, resync_known=True):
@@ -264,23 +307,25 @@ class Mon:
             # the pipe is read in FIFO order: the message behind this callback is the first outstanding one
             # for h that is valid, or (known defect L10) of an earlier incarnation on the same signum;
             # everything in front of it has been read without a callback
-            target = None
-            for e in exp[L]:
+            lst = exp[L]; ti = None
+            for j in range(pos.get(L, 0), len(lst)):
+                e = lst[j]
                 if e["done"] or e["h"] != h: continue
                 if e["sig"] == x["sig"] == sig:
-                    target = e; break
-            if target is None:
+                    ti = j; break
+            if ti is None:
                 if not x["sig"] or x["closing"]:
                     self.v("cb-after-stop", f"h{h} got a callback for {sig} after stop/close returned")
                 else:
                     self.v("cb-without-delivery", f"h{h} got a callback for {sig} with no delivery outstanding (watching {x['sig']})")
             else:
-                for e in exp[L]:
-                    if e is target: break
-                    if not e["done"]: passed_over(e, L)
+                for j in range(pos.get(L, 0), ti):
+                    if not lst[j]["done"]: passed_over(lst[j], L)
+                target = lst[ti]
                 if target["inc"] != x["inc"]:
                     self.v(K_L10, f"h{h} got a callback for {sig} caught before it was stopped and restarted on the same signal")
                 target["done"] = True
+                pos[L] = ti + 1
             x = H[h]
             x["got_cb"] = x["inc"]
             was_os = x["os"] and bool(x["sig"])
@@ -314,9 +359,9 @@ class Mon:
             else:
                 self.v("fanout-missed", f"h{e['h']} on loop {L} did not get its callback for a delivery of {e['sig']}")
         def end_of_dispatch(L):
-            for e in exp[L]:
+            for e in exp[L][pos.get(L, 0):]:
                 if not e["done"]: passed_over(e, L)
-            exp[L] = []
+            exp[L] = []; pos[L] = 0
         def loop_alive(L):
             # uv_run returns at once unless a started *referenced* handle or a closing handle exists
             return any(x["loop"] == L and ((x["sig"] and x["ref"]) or (x["closing"] and not x["closed"])) for x in H.values())
@@ -324,7 +369,7 @@ class Mon:
             x = H[h]
             if not x["closing"] or x["closed"]: self.v("close-cb", f"close_cb for h{h} which is not closing / already closed")
             if x["loop"] != L: self.v("wrong-loop", f"close_cb of h{h} on loop {L}")
-            if any(e["h"] == h and not e["done"] for e in exp[x["loop"]]):
+            if any(e["h"] == h and not e["done"] for e in exp[x["loop"]][pos.get(x["loop"], 0):]):
                 self.v("close-before-dispatched", f"close_cb for h{h} while a signal caught for it is still in the pipe")
             x["closed"] = True
 
@@ -400,6 +445,13 @@ class Mon:
             elif w[0] == "raise":
                 raise_sig(int(w[1]), next(it), None)
                 check_obs(cmd)
+            elif w[0] == "burst":
+                o = next(it); k = 0
+                while k < int(w[2]) and exp_disp(int(w[1])) != "dfl":
+                    deliver(int(w[1])); k += 1
+                if o != f"raised {k}":
+                    self.v("disposition", f"`{cmd}`: `{o}`, but libuv's handler should have been installed for exactly {k} of the raises")
+                check_obs(cmd)
             elif w[0] in ("run", "runraise"):
                 L = int(w[1])
                 alive = loop_alive(L) or w[0] == "runraise"
@@ -434,7 +486,7 @@ class Mon:
                 if alive:
                     for h, x in H.items():
                         if x["loop"] == L and x["closing"] and not x["closed"] and \
-                           not any(e["h"] == h and not e["done"] for e in exp[L]):
+                           not any(e["h"] == h and not e["done"] for e in exp[L][pos.get(L, 0):]):
                             self.v("close-cb-missing", f"h{h} is closing, nothing is pending, but close_cb did not run in `{cmd}`")
                 check_obs(cmd)
                 if deferred is not None and exp_disp(deferred) != "dfl":
@@ -569,6 +621,11 @@ def run(ctx):
     if cdir.exists():
         for p in sorted(cdir.glob("*.txt")):
             ok = run_case(ctx, exe, p.read_text().split("\n")[:-1], stats=stats) and ok
+    if ok:
+        bc = BURST_WITNESSES + [gen_burst_case(rng) for _ in range(ctx.scale(6, 150))]
+        for c in bc:
+            if not run_case(ctx, exe, c, stats=stats): ok = False; break
+        ctx.notes["burst_cases"] = len(bc)
     n_ex = 0
     if ok:
         for c in exhaustive_cases():
